@@ -147,7 +147,7 @@ func (g *Gen) Next(t *rapid.T) *Op {
 	add("emit", true)
 	add("res", true)
 	add("qOpen", g.P.OpenQ && nLive > 0 && m.OpenQ < g.P.MaxOpenQ)
-	add("qNext", g.P.OpenQ && m.OpenQ > 0)
+	add("qNext", g.P.OpenQ && len(m.Open) > 0) // open queries, or finished ones (Next on a finished query)
 	add("qClose", g.P.OpenQ && len(m.Open) > 0)
 	add("scenario", !locked && room && len(m.Filters) < 8)
 	add("misuse", g.P.Misuse)
@@ -166,7 +166,7 @@ func (g *Gen) Next(t *rapid.T) *Op {
 	if len(g.queue) > 0 {
 		op := g.queue[0]
 		g.queue = g.queue[1:]
-		if !locked {
+		if !locked || op.K == "qClose" || op.K == "qNext" {
 			return g.fixup(op)
 		}
 		g.queue = nil
@@ -1165,6 +1165,26 @@ func (g *Gen) genQNext(t *rapid.T) *Op {
 		}
 	}
 	sortInts(l)
+	if len(l) == 0 || rapid.IntRange(0, 7).Draw(t, "nextOnFinished") == 0 {
+		var done []int
+		for id, q := range m.Open {
+			if q.done {
+				done = append(done, id)
+			}
+		}
+		sortInts(done)
+		if len(done) > 0 {
+			// a caller that goes on with a finished query (and recovers); often followed by closing it again
+			id := rapid.SampledFrom(done).Draw(t, "finishedQuery")
+			if rapid.Bool().Draw(t, "thenCloseAgain") {
+				g.queue = []*Op{{K: "qClose", Q: id}}
+			}
+			return &Op{K: "qNext", Q: id, N: rapid.IntRange(1, 2).Draw(t, "steps")}
+		}
+	}
+	if len(l) == 0 {
+		return &Op{K: "stats"}
+	}
 	id := rapid.SampledFrom(l).Draw(t, "openQuery")
 	n := rapid.IntRange(1, 4).Draw(t, "steps")
 	if rapid.IntRange(0, 3).Draw(t, "exhaust") == 0 {
@@ -1316,7 +1336,11 @@ func (g *Gen) fixup(op *Op) *Op {
 //  3. 1-4 entities with S (and sometimes one extra component: a second source table)
 //  4. the batch operation through the drawn instantiation.
 func (g *Gen) genScenario(t *rapid.T) *Op {
-	if rapid.IntRange(0, 3).Draw(t, "relationScenario") == 0 {
+	if k := rapid.IntRange(0, 5).Draw(t, "relationScenario"); k == 0 {
+		if op := g.genRelCycle(t); op != nil {
+			return op
+		}
+	} else if k == 1 {
 		if op := g.genRelScenario(t); op != nil {
 			return op
 		}
@@ -1464,6 +1488,71 @@ func (g *Gen) genRelScenario(t *rapid.T) *Op {
 		b.Rels[0], b.Rels[1] = b.Rels[1], b.Rels[0]
 	}
 	q = append(q, b)
+	g.queue = q[1:]
+	return q[0]
+}
+
+// genRelCycle emits the life cycle of one relation table: children of a fresh target P are created, the table is
+// vacated while P stays alive (children removed, relation component removed, or re-targeted), Shrink may free it, the
+// (archetype, P) combination is populated again (recycling a freed table), and P is removed at some point. A cached
+// filter with the fixed target P and uncached queries watch the table all the time (through the per-step oracle).
+func (g *Gen) genRelCycle(t *rapid.T) *Op {
+	m := g.m()
+	if len(m.AliveList()) > g.P.MaxEnts-10 || len(m.Filters) >= 8 {
+		return nil
+	}
+	r := rapid.SampledFrom(listOf(comps.RelMask)).Draw(t, "cycleRel")
+	base := subset(t, 0xffff&^comps.RelMask, 0, 1, "cycleBase")
+	cl := append(append([]int{}, base...), r)
+	n0 := len(m.Ents)
+	tgt := n0
+	next := n0 + 1
+	q := []*Op{{K: "new", P: PWorld}}
+	mkChild := func(of int) {
+		q = append(q, &Op{K: "new", P: PUnsafe, Comps: cl, Vals: g.vals(len(cl)), Rels: []RelSpec{{C: r, T: of, S: 2}}})
+		next++
+	}
+	other := -1
+	if rapid.Bool().Draw(t, "cycleSecondTarget") {
+		q = append(q, &Op{K: "new", P: PWorld})
+		other = next
+		next++
+		mkChild(other)
+	}
+	var children []int
+	for i, k := 0, rapid.IntRange(1, 3).Draw(t, "cycleChildren"); i < k; i++ {
+		children = append(children, next)
+		mkChild(tgt)
+	}
+	if rapid.Bool().Draw(t, "cycleFilter") {
+		fi := len(m.Filters)
+		q = append(q, &Op{K: "filterNew", FS: &FilterSpec{Inst: 0, With: append([]int{}, cl...), Rels: []RelSpec{{C: r, T: tgt, S: 2}}}})
+		if rapid.Bool().Draw(t, "cycleFilterCached") {
+			q = append(q, &Op{K: "filterReg", F: fi, Mode: 1})
+		}
+	}
+	for _, c := range children {
+		switch rapid.IntRange(0, 3).Draw(t, "cycleVacate") {
+		case 0, 1:
+			q = append(q, &Op{K: "removeEntity", E: c})
+		case 2:
+			q = append(q, &Op{K: "remove", E: c, P: PUnsafe, Rem: []int{r}})
+		default:
+			q = append(q, &Op{K: "setRel", E: c, P: PUnsafe, Rels: []RelSpec{{C: r, T: other, S: 2}}})
+		}
+	}
+	for i, k := 0, rapid.IntRange(0, 2).Draw(t, "cycleShrinks"); i < k; i++ {
+		q = append(q, &Op{K: "shrink", Mode: rapid.SampledFrom([]int{0, 0, 1}).Draw(t, "shrinkMode")})
+	}
+	for i, k := 0, rapid.IntRange(1, 2).Draw(t, "cycleRefill"); i < k; i++ {
+		mkChild(tgt)
+	}
+	if rapid.IntRange(0, 3).Draw(t, "cycleRemoveTarget") != 0 {
+		q = append(q, &Op{K: "removeEntity", E: tgt})
+	}
+	if other >= 0 && rapid.Bool().Draw(t, "cycleRemoveOther") {
+		q = append(q, &Op{K: "removeEntity", E: other})
+	}
 	g.queue = q[1:]
 	return q[0]
 }
